@@ -758,6 +758,16 @@ def _reads_attr(fa, expr, attr, at=None):
             return True
         if _helper_reads_attr(fa, n, attr) is not None:
             return True
+    # a value assembled piece by piece (a list filled in a loop over the attribute, then frozen): the backward slice follows
+    # in-place changes and the iterables of the loops around them
+    if at is not None:
+        try:
+            sl = _backward_slice(fa, [(expr, at)])
+        except Exception:  # noqa
+            sl = {}
+        for n in sl.values():
+            if _attr_read_subject(n, attr) is not None or _helper_reads_attr(fa, n, attr) is not None:
+                return True
     return False
 
 
@@ -1000,13 +1010,13 @@ def check_hash_input_coverage(ck, R):
     def_reads = []
     for st in outer.stmts():
         # (for a compound statement only its test is looked at here: the statements inside are visited on their own)
-        scope_ = [st.test] if isinstance(st, (ast.If, ast.While)) else ([] if isinstance(st, (ast.For, ast.With, ast.Try)) else [st])
+        scope_ = [st.test] if isinstance(st, (ast.If, ast.While)) else ([st.iter] if isinstance(st, (ast.For, ast.AsyncFor)) else ([] if isinstance(st, (ast.With, ast.Try)) else [st]))
         for n in [x for sc_ in scope_ for x in A.walk_local(sc_)]:
             if (isinstance(n, ast.Attribute) and n.attr in FUNC_RELEVANT) or \
                     (isinstance(n, ast.Call) and A.call_attr(n) == "getattr" and len(n.args) >= 2 and A.const_str(n.args[1]) in FUNC_RELEVANT):
-                if isinstance(st, (ast.Assign, ast.Expr, ast.AugAssign, ast.AnnAssign, ast.Return, ast.If, ast.While)):
+                if isinstance(st, (ast.Assign, ast.Expr, ast.AugAssign, ast.AnnAssign, ast.Return, ast.If, ast.While, ast.For, ast.AsyncFor)):
                     def_reads.append((A.const_str(n.args[1]) if isinstance(n, ast.Call) else n.attr, st))
-            elif isinstance(n, ast.Call) and isinstance(st, (ast.Assign, ast.Expr, ast.AugAssign, ast.AnnAssign, ast.Return, ast.If, ast.While)):
+            elif isinstance(n, ast.Call) and isinstance(st, (ast.Assign, ast.Expr, ast.AugAssign, ast.AnnAssign, ast.Return, ast.If, ast.While, ast.For, ast.AsyncFor)):
                 for attr in FUNC_RELEVANT:
                     if _helper_reads_attr(outer, n, attr) is not None:
                         def_reads.append((attr, st))
@@ -1068,7 +1078,13 @@ def check_hash_input_coverage(ck, R):
     okc = len(chs) == 1 and A.norm(_call_arg(ck, chs[0], FCH, "fn")) == "fn" and A.norm(_call_arg(ck, chs[0], FCH, "salt")) == "version_salt" \
         and A.norm(_call_arg(ck, chs[0], FCH, "environment")) == "ENVIRONMENT_HASH_BYTES"
     st = [s for s in ini.stmts(ast.Assign) if any(A.dotted(t) == "self.code_hash" for t in s.targets)]
-    okc = okc and bool(st) and all("call:fn_code_hash" in ini.deps(s_.value) for s_ in st)
+    # (one store fed by the call, or one store per case: the stores that do not come from the call are reached only when a
+    # version or a code hash was handed in)
+    def _given(s_):
+        cj = _conditions(ini, s_)
+        return bool(cj) and all(any((not pol) and t_.endswith(" is None") and t_.split(" is None")[0] in ini.fi.params for (t_, pol) in conj) for conj in cj)
+    okc = okc and bool(st) and any("call:fn_code_hash" in ini.deps(s_.value) for s_ in st) \
+        and all("call:fn_code_hash" in ini.deps(s_.value) or _given(s_) for s_ in st)
     ck.ob(R, ini.key(None, "code-hash-stored"), okc, "the function's code hash (with salt and environment) is stored at definition" if okc else
           "MementoFunction.__init__ does not store fn_code_hash(fn, salt, environment) as code_hash", ini.where())
 
